@@ -22,7 +22,15 @@ RULE = ("seeded worlds: 1-4 users out of {'None' (the no-auth user id), u1, U1, 
         "NETWORK_ERRORS through FromEngine.publish_engine_disconnected_notification, NEW_CONTRIBUTOR through "
         "FromFrontend.publish_new_contributor_notification once per user as the subject). distinct = the world "
         "(users, prefs, subscriptions, unit roles, contributors); non-trivial = at least one publish whose expected "
-        "recipient set is neither empty nor all subscriptions")
+        "recipient set is neither empty nor all subscriptions. Unit ids: 35 % of the worlds keep pc33_unit0..2; 45 % "
+        "register three (computer name, uod name) pairs through the real register handler, so the id is what "
+        "Aggregator.create_engine_id builds (quote(computer + '_' + uod)); 20 % register EngineData under a raw id. "
+        "Names / raw ids are drawn as families over an alphabet with '_', '%', '[', '\"', '\\', ',', space, "
+        "non-ASCII, '%25'-like pieces and the empty string: a base, extensions by a head and/or a tail (prefix / suffix "
+        "/ infix relatives), case variants, one-character variants, LIKE-generalisations ('_' or '%' in place of part "
+        "of a sibling), JSON-looking fragments 'A\", \"B' of two siblings. Listed units of a user: subset of the 3 "
+        "units (+ an unknown id) + 0-3 decoy strings related to a unit id the same way (longer, shorter, other case, "
+        "wildcards filled in, unquoted name, JSON fragment, '', ' ', '%', '_')")
 ASSUMPTIONS = [
     "entitled(user, unit, topic) = topic in the user's recorded topics AND (unit has no required roles OR recorded "
     "roles intersect them) AND (scope 'access' OR (scope 'contributed' AND user among the unit's contributors) OR "
@@ -37,9 +45,22 @@ ASSUMPTIONS = [
     "WebPushPublisher.wp is a truthy stub and _post_webpush is replaced on the instance: encryption and HTTP are "
     "outside the property",
     "required roles / contributors / run data are set directly on the registered EngineData objects",
+    "'unit id among the listed units' is exact string equality with an element of the posted list",
+    "raw-id worlds register EngineData through FromEngine.register_engine_data under an id that is not url-quoted: "
+    "the publisher's contract is over EngineData.engine_id whatever its alphabet",
+    "the LIKE-pattern / substring / case classification of a publish only feeds counters (which class of world was "
+    "reached), never the verdict",
 ]
 REQUIRED = {"publishes": 20000, "sent_calls": 10000, "publishes_with_partial_recipient_set": 2000,
-            "new_contributor_publishes_with_subject_subscribed": 300, "subscription_rows": 3000}
+            "new_contributor_publishes_with_subject_subscribed": 300, "subscription_rows": 3000,
+            # id-alphabet strata: a subscriber that would be notified but for the listed units (has the topic, the
+            # roles, a subscription, scope 'specific', unit id not in the list) and whose list ...
+            "publishes_unit_id_proper_substring_of_id_listed_by_nonentitled_subscriber": 250,
+            "publishes_unit_id_proper_substring_of_listed_other_unit_id_of_nonentitled_subscriber": 90,
+            "publishes_unit_id_matches_nonentitled_list_only_as_like_pattern": 150,
+            "publishes_unit_id_equal_but_for_case_to_id_listed_by_nonentitled_subscriber": 50,
+            "publishes_about_unit_with_percent_in_id": 8000, "publishes_about_unit_with_raw_id": 4000,
+            "worlds_with_unit_id_substring_of_another_unit_id": 200}
 EXHAUSTIVE_ALL = False
 
 USER_POOL = ["None", "u1", "U1", "u2", "u 3"]
@@ -74,32 +95,174 @@ def gen_world(rnd: random.Random):
     for i in range(3):
         w["units"].append({"required": [r for r in ROLES if rnd.random() < 0.45],
                            "contributors": [u for u in users if rnd.random() < 0.4]})
+    # ---- unit ids (drawn after everything else: the draws above stay what they were)
+    mode = rnd.choices(["plain", "quoted", "raw"], [35, 45, 20])[0]
+    if mode == "quoted":
+        cs, us = _family(rnd, rnd.choice(["LAB-PC", "pc33", _token(rnd)])), _family(rnd, rnd.choice(["Purifier", _token(rnd)]))
+        names: list = []
+        for _ in range(60):
+            c, u = rnd.choice(cs[:2] if rnd.random() < 0.6 else cs), rnd.choice(us)
+            if all(c + "_" + u != a + "_" + b for a, b in names):
+                names.append([c, u])
+            if len(names) == 3:
+                break
+        while len(names) < 3:
+            names.append([cs[0], f"{us[0]}#{len(names)}"])
+        for unit, n in zip(w["units"], names):
+            unit["reg"] = n
+    elif mode == "raw":
+        fam = _family(rnd, _token(rnd))
+        if rnd.random() < 0.4 and len(fam) >= 2:
+            a, b = rnd.sample(fam, 2)
+            fam.insert(0, a + rnd.choice(['", "', '","', '\\", \\"', ", "]) + b)
+        ids: list = []
+        for x in fam:
+            if x not in ids:
+                ids.append(x)
+        while len(ids) < 3:
+            ids.append(f"{ids[0]}#{len(ids)}")
+        first = ids[:1] + rnd.sample(ids[1:], 2)
+        rnd.shuffle(first)
+        for unit, x in zip(w["units"], first):
+            unit["raw"] = x
+    rough = [_rough_id(w, i) for i in range(3)]
+    for u in w["users"]:
+        u["listed_ids"] = [_decoy(rnd, rough) for _ in range(rnd.choice([0, 0, 1, 1, 2, 3]))]
     return w
+
+
+PIECES = ["LAB-PC", "Purifier", "unit", "pc33", "A", "B", "a", "b", "x", "0", "2", "é", "ß", "柱", " ", "_", "%", "[", "]",
+          '"', "\\", ",", ".", "-", "~", "'", "/", "%25", "%5F", "%2", "", "E1"]
+TAILS = ["2", "0", "_2", " ", "%", "_", "x", "é", '"', "X", "-b", "%20", "]", ",", "\\", "1"]
+
+
+def _token(rnd):
+    return "".join(rnd.choice(PIECES) for _ in range(rnd.choice([1, 1, 2, 2, 3])))
+
+
+def _relative(rnd, s):
+    """a string related to `s`: longer (prefix / suffix / infix of it), shorter, other case, one character changed, or a
+    LIKE-generalisation of it ('_' for one character, '%' for a slice)"""
+    kind = rnd.choice(["tail", "tail", "head", "both", "case", "char", "like_", "like%", "shorter", "fill", "other"])
+    i = rnd.randrange(len(s)) if s else 0
+    if kind == "tail":
+        return s + rnd.choice(TAILS)
+    if kind == "head":
+        return rnd.choice(TAILS) + s
+    if kind == "both":
+        return rnd.choice(TAILS) + s + rnd.choice(TAILS)
+    if kind == "case":
+        return rnd.choice([s.swapcase(), s.upper(), s.lower()])
+    if kind == "char" and s:
+        return s[:i] + rnd.choice("abX2 é_%") + s[i + 1:]
+    if kind == "like_" and s:
+        return s[:i] + "_" + s[i + 1:]
+    if kind == "like%" and s:
+        return s[:i] + "%" + s[rnd.randint(i, len(s)):]
+    if kind == "shorter" and s:
+        return rnd.choice([s[:-1], s[1:], s[:i]])
+    if kind == "fill":
+        return _fill(rnd, s)
+    return _token(rnd)
+
+
+def _fill(rnd, s):
+    """a string that `s`, read as a LIKE pattern, matches: every '_' replaced by one character, every '%' by a few"""
+    return "".join(rnd.choice("abX2_ é") if c == "_" else rnd.choice(["", "25", "zz", "%", "2"]) if c == "%" else c
+                   for c in s)
+
+
+def _family(rnd, base):
+    fam = [base]
+    for _ in range(rnd.choice([2, 3, 4])):
+        x = _relative(rnd, rnd.choice(fam[:2]))
+        if x not in fam:
+            fam.append(x)
+    return fam
+
+
+def _rough_id(w, i):
+    """what the unit's id will look like, only used to derive related decoy strings (the oracle uses the id the
+    aggregator really assigned)"""
+    from urllib.parse import quote
+    unit = w["units"][i]
+    if "raw" in unit:
+        return unit["raw"]
+    c, u = unit.get("reg", ["pc33", f"unit{i}"])
+    return quote(c + "_" + u, "")
+
+
+def _decoy(rnd, ids):
+    from urllib.parse import unquote
+    e = rnd.choice(ids)
+    kind = rnd.choice(["rel", "rel", "rel", "fill", "fill", "case", "unquote", "frag", "tiny", "token"])
+    if kind == "rel":
+        return _relative(rnd, e)
+    if kind == "fill":
+        return _fill(rnd, e)
+    if kind == "case":
+        return rnd.choice([e.swapcase(), e.upper(), e.lower()])
+    if kind == "unquote":
+        return unquote(e)
+    if kind == "frag":
+        return e + rnd.choice(['", "', '","', ", "]) + rnd.choice(ids)
+    if kind == "tiny":
+        return rnd.choice(["", " ", "%", "_", "[]", '"', "\\", "__", "%%"])
+    return _token(rnd)
 
 
 class Env:
     def __init__(self):
         from opv.rigs.frontend_rig import FrontendRig
         self.rig = FrontendRig(real_webpush=True)
-        self.eids: list[str] = []
+        self.eids: list[str] = []          # ids / EngineData of the three units of the current world
         self.eds: list = []
+        self.known: dict = {}              # ("reg", computer, uod) | ("raw", id) -> engine id
         self.sub_seq = 0
 
     async def setup(self):
+        await self.use_units([{}, {}, {}])
+        await self.rig.drain_tasks()
+
+    async def _unit(self, i, unit):
+        """id of the unit, registering it on first use: through the real register handler (id built by
+        Aggregator.create_engine_id) or, for a raw id, through FromEngine.register_engine_data"""
         from datetime import datetime, timezone
         import openpectus.aggregator.models as Mdl
-        for k in range(3):
-            r = await self.rig.register("pc33", f"unit{k}")
-            assert r.success
-            await self.rig.connect(r.engine_id)
-            ed = self.rig.agg._engine_data_map[r.engine_id]
-            ed.run_data = Mdl.RunData.empty(run_id=f"run-{k}", run_started=datetime(2026, 1, 1, tzinfo=timezone.utc))
-            self.eids.append(r.engine_id)
-            self.eds.append(ed)
-        await self.rig.drain_tasks()
+        key = ("raw", unit["raw"]) if "raw" in unit else ("reg", *unit.get("reg", ["pc33", f"unit{i}"]))
+        if key not in self.known:
+            if key[0] == "raw":
+                eid = key[1]
+                if eid not in self.rig.agg._engine_data_map:
+                    self.rig.agg.from_engine.register_engine_data(Mdl.EngineData(
+                        engine_id=eid, computer_name="raw", uod_name="raw " + eid, uod_author_name="author",
+                        uod_author_email="author@example.org", uod_filename="uod.py", location="lab",
+                        engine_version="0"))
+            else:
+                eid = self.rig.agg.create_engine_id(self.rig.register_msg(key[1], key[2]))
+                if eid not in self.rig.agg._engine_data_map:
+                    r = await self.rig.register(key[1], key[2])
+                    assert r.success and r.engine_id == eid, (r, eid)
+                    await self.rig.connect(eid)
+            ed = self.rig.agg._engine_data_map[eid]
+            if not ed.has_run():
+                ed.run_data = Mdl.RunData.empty(run_id=f"run-{len(self.known)}",
+                                                run_started=datetime(2026, 1, 1, tzinfo=timezone.utc))
+            self.known[key] = eid
+        return self.known[key]
+
+    async def use_units(self, units):
+        self.eids = [await self._unit(i, unit) for i, unit in enumerate(units)]
+        self.eds = [self.rig.agg._engine_data_map[e] for e in self.eids]
 
     def unit_id(self, i):
         return self.eids[i] if i < 3 else "no-such-unit"
+
+
+def _like_regex(pattern: str):
+    """SQL LIKE semantics of `pattern` inside a longer text ('%' any run, '_' any one character); counters only"""
+    import re
+    return re.compile("".join(".*" if c == "%" else "." if c == "_" else re.escape(c) for c in pattern), re.S)
 
 
 async def check_world(env: Env, w, res: Result):
@@ -110,9 +273,20 @@ async def check_world(env: Env, w, res: Result):
     from sqlalchemy import delete, select
     from webpush.types import WebPushKeys, WebPushSubscription
 
+    import json
     rig = env.rig
     db = rig.database
     # ---- build the world through the real entry points
+    await env.use_units(w["units"])
+    await rig.drain_tasks()
+    if len(set(env.eids)) != 3:
+        res.count("worlds_skipped_two_units_share_an_id")
+        res.case(None)
+        return
+    if any(a != b and a in b for a in env.eids for b in env.eids):
+        res.count("worlds_with_unit_id_substring_of_another_unit_id")
+    listed_of = {u["id"]: {env.unit_id(i) for i in u["listed"]} | set(u.get("listed_ids", ())) for u in w["users"]}
+    like_of = [_like_regex(e) for e in env.eids]
     with db.create_scope():
         s = db.scoped_session()
         s.execute(delete(DMdl.WebPushSubscription))
@@ -124,7 +298,7 @@ async def check_world(env: Env, w, res: Result):
             rig.ff.webpush_notification_preferences_posted(Mdl.WebPushNotificationPreferences(
                 user_id=u["id"], user_roles=set(u["roles"]), scope=NotificationScope(u["scope"]),
                 topics={NotificationTopic(t) for t in u["topics"]},
-                process_units={env.unit_id(i) for i in u["listed"]}))
+                process_units=set(listed_of[u["id"]])))
         for _ in range(u["nsubs"]):
             env.sub_seq += 1
             ep = f"https://push.example.org/send/{env.sub_seq}"
@@ -159,7 +333,7 @@ async def check_world(env: Env, w, res: Result):
         if u["scope"] == NotificationScope.PROCESS_UNITS_I_HAVE_ACCESS_TO.value:
             return True
         if u["scope"] == NotificationScope.SPECIFIC_PROCESS_UNITS.value:
-            return ui in u["listed"]
+            return env.eids[ui] in listed_of[uid]
         if uid in w["units"][ui]["contributors"]:
             return None if uid == "None" else True
         return False
@@ -198,6 +372,34 @@ async def check_world(env: Env, w, res: Result):
         if not ok:
             viol.setdefault(None, "publish tasks did not finish")
         res.count("publishes")
+        # ---- which id-alphabet classes this publish reaches (counters only)
+        eid = env.eids[ui]
+        if "%" in eid:
+            res.count("publishes_about_unit_with_percent_in_id")
+        if "raw" in w["units"][ui]:
+            res.count("publishes_about_unit_with_raw_id")
+        classes = set()
+        for uid, u in users.items():
+            if not (u["has_prefs"] and u["scope"] == NotificationScope.SPECIFIC_PROCESS_UNITS.value and subs_of[uid]
+                    and topic in u["topics"] and eid not in listed_of[uid]) or (subject is not None and subject == uid):
+                continue
+            req = set(w["units"][ui]["required"])
+            if req and not (req & set(u["roles"])):
+                continue
+            # this subscriber would be notified but for the listed units
+            text = json.dumps(sorted(listed_of[uid]))
+            if any(eid in x for x in listed_of[uid]):
+                classes.add("publishes_unit_id_proper_substring_of_id_listed_by_nonentitled_subscriber")
+                if any(eid in x for x in listed_of[uid] if x in env.eids):
+                    classes.add("publishes_unit_id_proper_substring_of_listed_other_unit_id_of_nonentitled_subscriber")
+            elif eid in text:
+                classes.add("publishes_unit_id_substring_of_serialised_list_of_nonentitled_subscriber")
+            elif eid.lower() in {x.lower() for x in listed_of[uid]}:
+                classes.add("publishes_unit_id_equal_but_for_case_to_id_listed_by_nonentitled_subscriber")
+            elif like_of[ui].search(text):
+                classes.add("publishes_unit_id_matches_nonentitled_list_only_as_like_pattern")
+        for c in classes:
+            res.count(c)
         sent = Counter(x[1].rstrip("/") for x in rig.sent)
         res.count("sent_calls", sum(sent.values()))
         exp_min, exp_max = set(), set()
@@ -219,7 +421,7 @@ async def check_world(env: Env, w, res: Result):
         if exp_min and len(exp_min) < len(all_subs):
             partial = True
             res.count("publishes_with_partial_recipient_set")
-        where = (f"unit {ui} (required roles {w['units'][ui]['required']}, contributors {w['units'][ui]['contributors']}) "
+        where = (f"unit {ui} id {env.eids[ui]!r} (required roles {w['units'][ui]['required']}, contributors {w['units'][ui]['contributors']}) "
                  f"topic {topic}" + (f" subject {subject!r}" if subject is not None else ""))
         for ep, n in sorted(sent.items()):
             uid = endpoints.get(ep) or endpoints.get(ep + "/")
